@@ -38,17 +38,22 @@ theorem resRes_complete {sp : Spec} {f : Facts} {r : RunRes} {c : Contract} (hco
         right; right
         exact ⟨rfl, _, rfl, by cases incub <;> simp [Rec.progress]⟩
     · -- to
-      cases who
-      · simp [resRes, hc, hso] at hres; subst hres
-        left; exact ⟨_, _, _, rfl, by cases incub <;> simp [Rec.progress]⟩
-      · by_cases h2 : c.twoStage = true
-        · cases incub
-          · simp [resRes, hc, hso, h2] at hres; subst hres
-            left; exact ⟨_, _, _, rfl, by simp [Rec.progress]⟩
-          · simp [resRes, hc, hso, h2, hs2'] at hres; subst hres
-            left; exact ⟨_, _, _, rfl, by simp [Rec.progress]⟩
-        · simp [resRes, hc, hso, h2] at hres; subst hres
+      by_cases hlh : (c.legacy && !handed) = true
+      · -- pre-anchor channel: this incarnation has not handed the htlc to the nursery yet
+        have hh' : handed = false := by cases handed <;> simp_all
+        simp [resRes, hc, hlh] at hres; subst hres
+        right; left; exact ⟨rfl, hh'⟩
+      · cases who
+        · simp [resRes, hc, hso, hlh] at hres; subst hres
           left; exact ⟨_, _, _, rfl, by cases incub <;> simp [Rec.progress]⟩
+        · by_cases h2 : c.twoStage = true
+          · cases incub
+            · simp [resRes, hc, hso, h2, hlh] at hres; subst hres
+              left; exact ⟨_, _, _, rfl, by simp [Rec.progress]⟩
+            · simp [resRes, hc, hso, h2, hs2', hlh] at hres; subst hres
+              left; exact ⟨_, _, _, rfl, by simp [Rec.progress]⟩
+          · simp [resRes, hc, hso, h2, hlh] at hres; subst hres
+            left; exact ⟨_, _, _, rfl, by cases incub <;> simp [Rec.progress]⟩
     · -- ic
       simp [resRes, hc, hexp] at hres; subst hres
       left; exact ⟨_, _, _, rfl, by cases incub <;> simp [Rec.progress]⟩
@@ -173,8 +178,8 @@ theorem res_progress {sp : Spec} {s : Sys} (hl : InvL sp s) (hc : Corr s)
       · intro r' hf'; rw [hf] at hf'; cases hf'; rw [hres]; intro h; cases h
       · simp only [step, resStep, hf, hres]; exact h1
     · have hstep : step sp s (.res p0.1) =
-          some { s with nursery := if s.nursery.any (fun p => p.1 == p0.1 && p.2 == .preschool) then s.nursery
-                                   else s.nursery ++ [(p0.1, .preschool)],
+          some { s with nursery := if s.nursery.any (fun p => p.1 == p0.1 && p.2 == incubStage r.rc.kind) then s.nursery
+                                   else s.nursery ++ [(p0.1, incubStage r.rc.kind)],
                         active := setActive s.active p0.1 { r with handed := true } } := by
         simp only [step, resStep, hf, hres, resApply]
       refine ⟨.res p0.1, _, ⟨_, Or.inl rfl⟩, ?_, hstep, ?_, rfl, rfl, rfl⟩
